@@ -7,11 +7,13 @@ on compiled ASTs; `semCall` is the specification: the call tree unfolded through
 the callable tables with locations, comments, include structure, callable
 names, scalar file-type names, stage output file names, volatile, retain,
 resources, src and chunk parameters erased and all tables sorted.
-The fact `Gen.c15SelfCompare` is regenerated from the source on every run.
+The facts `Gen.c15SelfCompare` and `Gen.c15StructsCompared` (the struct-definition
+pass of the repaired comparison exists) are regenerated from the source on every run.
 -/
 import Martian.Equiv
 import Martian.EquivMeaning
 import Proofs.Equiv
+import Proofs.EquivStructs
 import Proofs.EquivLockLTS
 import Proofs.EquivLockLTSOld
 import Gen.Facts
@@ -23,7 +25,8 @@ open Martian.Equiv Martian.SortKeys
 with the receiver's `disabled` binding is read from the *other* modifier set.
 (False on a tree where it is read from the receiver itself — defect F11; the
 negative witness is `selfCompare_accepts_changed_condition`.) -/
-theorem disabled_lookup_reads_other : Gen.c15SelfCompare = false := by decide
+theorem disabled_lookup_reads_other :
+    Gen.c15SelfCompare_extracted = true ∧ Gen.c15SelfCompare = false := by decide
 
 /-- Re-attach is accepted exactly when the meaning is unchanged: at every
 unfolding depth `n`, `CallStm.EquivalentTo` holds iff the two calls have the
@@ -32,7 +35,7 @@ theorem equivCall_iff_sem_eq (n : Nat) (T U : Tab) (c d : Call)
     (hT : T.wf = true) (hU : U.wf = true) (hc : c.wf = true) (hd : d.wf = true)
     (hcc : c.completeIn T = true) (hdc : d.completeIn U = true) :
     equivCall Gen.c15SelfCompare n T U c d = true ↔ semCall n T c = semCall n U d := by
-  rw [disabled_lookup_reads_other]
+  rw [disabled_lookup_reads_other.2]
   exact equivCall_iff n T U hT hU c d hc hd hcc hdc
 
 /-- `Ast.EquivalentCall` on two compiled programs. -/
@@ -42,56 +45,44 @@ theorem equiv_iff_sem_eq (a b : Prog) (ha : a.wf = true) (hb : b.wf = true) :
   simp only [Prog.wf, Bool.and_eq_true] at ha hb
   exact equivCall_iff_sem_eq _ _ _ _ _ ha.1.1 hb.1.1 ha.1.2 hb.1.2 ha.2 hb.2
 
+/-- Regenerated obligation (repair of F20): after the call comparison
+`Ast.EquivalentCall` runs the second pass `structComparer.call`, which compares
+the DEFINITIONS of the struct types used by the compared parameters, and refuses
+when it fails.  (False on a tree without that pass — struct types are then
+compared by name only; negative witness `struct_definition_change_accepted_without_second_pass`.) -/
+theorem struct_definitions_compared :
+    Gen.c15StructsCompared_extracted = true ∧ Gen.c15StructsCompared = true := by decide
+
 /-- THE statement at the level of the full meaning (`Martian.Equiv.meaning`: the
 call graph unfolded from the top-level call with all callable bodies, parameter
-types, modifiers, bindings, plus every aspect listed in `Ignored`):
-re-attach is accepted iff the COMPARED part of the meaning is unchanged.
-What `Ast.EquivalentCall` ignores, exactly as the Go code does, is the `ignored`
-component — constructor by constructor `Ignored.calleeName`, `.volatile`,
-`.stageSrc`, `.resources`, `.retain`, `.chunkParams`, `.fileTypeName` (scalar
-file kinds only), `.outName` (stage outputs, non-file pipeline outputs), `.help`,
-`.structDef` — and what is not meaning at all (comments, whitespace, every
-ordering, include structure, unreachable callables and types).  Each ignored
-aspect has its own edit class in the correspondence harness, which checks that
-the real code accepts it AND that the model sees exactly that aspect change. -/
-theorem equiv_iff_compared_meaning_eq (a b : FullProg) (ha : a.core.wf = true) (hb : b.core.wf = true) :
-    equivalentCall Gen.c15SelfCompare a.core b.core = true ↔
-      (meaning (Prog.fuel a.core b.core) a).compared = (meaning (Prog.fuel a.core b.core) b).compared :=
-  equiv_iff_sem_eq a.core b.core ha hb
-
-/-- Nothing in `Extra` (src, resources, retain, chunk parameters, help) and no
-struct definition can change the verdict: the comparison never reads them. -/
-theorem ignored_components_do_not_matter (a a' b : FullProg) (h : a.core = a'.core) :
-    equivalentCall Gen.c15SelfCompare a.core b.core = equivalentCall Gen.c15SelfCompare a'.core b.core ∧
-    equivalentCall Gen.c15SelfCompare b.core a.core = equivalentCall Gen.c15SelfCompare b.core a'.core := by
-  rw [h]; exact ⟨rfl, rfl⟩
-
-/-- `volatile` is ignored by `Modifiers.EquivalentTo` (both sides). -/
-theorem volatile_is_ignored (sc : Bool) (m o : Mods) (v : Bool) :
-    Mods.equiv sc { m with volatile := v } o = Mods.equiv sc m o ∧
-    Mods.equiv sc m { o with volatile := v } = Mods.equiv sc m o := by
-  simp [Mods.equiv]
-
-/-- the type NAME of a parameter of scalar file kind is ignored -/
-theorem scalar_file_type_name_is_ignored (x y : Param) (t : Key) (hx : x.fileKind = 2) :
-    inParamEq { x with tname := t } y = inParamEq x y ∧
-    inParamEq y { x with tname := t } = inParamEq y x := by
-  constructor
-  · simp [inParamEq, hx]
-  · simp only [inParamEq]
-    by_cases hy : y.fileKind = 2
-    · simp [hy]
-    · have : (y.fileKind == x.fileKind) = false := by simpa [hx] using hy
-      simp [this]
-
-/-- the output file name of a STAGE output is ignored (`checkOutNames = false`) -/
-theorem stage_out_name_is_ignored (x y : Param) (n : Key) :
-    outParamEq false { x with outName := n } y = outParamEq false x y := by
-  simp [outParamEq, inParamEq]
-
-/-- …but not that of a pipeline output of file or directory kind -/
-example : outParamEq true { tname := [116], arrayDim := 0, mapDim := 0, fileKind := 2, outName := [] }
-    { tname := [116], arrayDim := 0, mapDim := 0, fileKind := 2, outName := [1] } = false := by decide
+types, modifiers, bindings, AND the unfolded definitions of the struct types of
+all those parameters — member names, what is compared of each member, the
+definitions of the members' own struct types, recursively — plus every aspect
+listed in `Ignored`): re-attach is accepted iff the COMPARED part of the meaning
+is unchanged.  `equivalentCallFull` is `Ast.EquivalentCall` as repaired for F20:
+`CallStm.EquivalentTo` on the top-level calls, then `structComparer.call`.
+What it ignores, exactly as the Go code does, is the `ignored` component —
+constructor by constructor `Ignored.calleeName`, `.volatile`, `.stageSrc`,
+`.resources`, `.retain`, `.chunkParams`, `.fileTypeName` (scalar file kinds
+only), `.outName` (stage outputs, non-file pipeline outputs), `.help` — and what
+is not meaning at all (comments, whitespace, every ordering, include structure,
+unreachable callables and types).  Each ignored aspect has its own edit class
+in the correspondence harness, which checks that the real code accepts it AND
+that the model sees exactly that aspect change.  Hypotheses (checked by the
+driver on every real AST): the compiled ASTs are well formed; member names of
+a struct are distinct. -/
+theorem equiv_iff_compared_meaning_eq (a b : FullProg) (ha : a.core.wf = true) (hb : b.core.wf = true)
+    (hsa : structsWf a.structs = true) (hsb : structsWf b.structs = true) :
+    equivalentCallFull Gen.c15SelfCompare Gen.c15StructsCompared a b = true ↔
+      (meaning (Prog.fuel a.core b.core) (sfuel a b) a).compared
+        = (meaning (Prog.fuel a.core b.core) (sfuel a b) b).compared := by
+  have h1 := equiv_iff_sem_eq a.core b.core ha hb
+  simp only [Prog.wf, Bool.and_eq_true] at ha hb
+  have h2 := typesCall_iff a.structs b.structs hsa hsb (sfuel a b) (Prog.fuel a.core b.core)
+    a.core.tab b.core.tab ha.1.1 hb.1.1 a.core.call b.core.call
+  rw [struct_definitions_compared.2]
+  simp only [equivalentCallFull, meaning, Bool.and_eq_true, Bool.not_true, Bool.false_or, Prod.mk.injEq]
+  exact and_congr h1 h2
 
 theorem equiv_refl (n : Nat) (T : Tab) (c : Call) (hT : T.wf = true) (hc : c.wf = true)
     (hcc : c.completeIn T = true) :
@@ -147,6 +138,32 @@ example : equivCall false 3 (demoTab kA [116] false) (demoTab [67] [117] true) (
 example : equivCall false 3 (demoTab kA [116] false) (demoTab kA [116] false) (topCall 1) (topCall 2) = false := by
   decide
 
+/-! Struct definitions (repair of F20): stage `A(in Pt p)` called from the
+top level; `struct Pt(int x)` versus `struct Pt(int x, int w)`. -/
+private def kPt : Key := [80, 116]
+private def pPt : Param := { tname := kPt, arrayDim := 0, mapDim := 0, fileKind := 0, outName := [] }
+private def ptProg (fields : List (Key × Param)) : FullProg :=
+  { core := { tab := [(kA, .stage false [(kX, pPt)] [])],
+              call := { id := kA, decId := kA, binds := [(kX, .atom .null)], mods := mods0 } },
+    extras := [], structs := [(kPt, fields)] }
+
+/-- non-vacuity of `equiv_iff_compared_meaning_eq`, and the point of the repair:
+a member added to a struct type that a reachable parameter uses changes the
+compared meaning and is refused (both directions); the unchanged definition is
+accepted. -/
+theorem struct_definition_change_refused :
+    (ptProg [(kX, pInt)]).core.wf = true ∧ structsWf (ptProg [(kX, pInt)]).structs = true
+    ∧ structsWf (ptProg [(kX, pInt), (kY, pInt)]).structs = true
+    ∧ equivalentCallFull false true (ptProg [(kX, pInt)]) (ptProg [(kX, pInt)]) = true
+    ∧ equivalentCallFull false true (ptProg [(kX, pInt)]) (ptProg [(kX, pInt), (kY, pInt)]) = false
+    ∧ equivalentCallFull false true (ptProg [(kX, pInt), (kY, pInt)]) (ptProg [(kX, pInt)]) = false := by
+  decide
+
+/-- Negative witness (F20): without the second pass the same change is accepted. -/
+theorem struct_definition_change_accepted_without_second_pass :
+    equivalentCallFull false false (ptProg [(kX, pInt)]) (ptProg [(kX, pInt), (kY, pInt)]) = true := by
+  decide
+
 /-- Negative witness (F11): when the second lookup reads the receiver's own
 table, a call whose disabling condition changed from `true` to `false` is
 accepted although its meaning differs. -/
@@ -171,12 +188,13 @@ example : (wildCall kA).wf = true ∧ equivCall false 1 [] [] (wildCall kA) (wil
 /-- Regenerated obligation: `Pipestance.Lock` registers its signal handler only
 AFTER the `_lock`-exists check, so an attacher that is refused is not
 registered. (Negative witness otherwise: `registerFirst_lets_third_writer_in`.) -/
-theorem handler_registered_after_check : Gen.c15RegisterFirst = false := by decide
+theorem handler_registered_after_check :
+    Gen.c15RegisterFirst_extracted = true ∧ Gen.c15RegisterFirst = false := by decide
 
 /-- While `_lock` exists every `Lock()` fails and leaves the lock file and the holders alone. -/
 theorem lock_exclusive (s : LockState) (p : Nat) (h : s.lockFile = true) :
     (lockStep Gen.c15RegisterFirst s (.lock p)) = (s, false) := by
-  rw [handler_registered_after_check]
+  rw [handler_registered_after_check.2]
   cases s
   simp_all [lockStep]
 
@@ -191,7 +209,7 @@ theorem at_most_one_writer (ops : List LockOp) (s : LockState)
     (∀ p q, p ∈ s.holders → (lockStep Gen.c15RegisterFirst s (.lock q)).2 = false) ∧
     (∀ p, p ∉ s.holders → (lockStep Gen.c15RegisterFirst s (.signal p)).1.lockFile = s.lockFile ∧
       (lockStep Gen.c15RegisterFirst s (.signal p)).1.holders = s.holders) := by
-  rw [handler_registered_after_check] at h ⊢
+  rw [handler_registered_after_check.2] at h ⊢
   obtain ⟨hr, h0, h1⟩ := lockInv_run ops lockInit s lockInv_init h
   cases hl : s.lockFile
   · simp [h0 hl, lockStep, hl, hr]
@@ -229,7 +247,16 @@ takeover exist in the code.  All theorems are over ALL traces / interleavings. -
 `os.OpenFile(…, O_CREATE|O_EXCL, …)`, which is what makes `acquire` ONE atomic
 action.  (False on a tree where the lock is written after a separate existence
 check: see `lts_check_then_write_race` for what then goes wrong.) -/
-theorem lock_file_created_exclusively : Gen.c15LockExclusive = true := by decide
+theorem lock_file_created_exclusively :
+    Gen.c15LockExclusive_extracted = true ∧ Gen.c15LockExclusive = true := by decide
+
+/-- Regenerated obligation (repair of the "refused start deletes the running
+pipestance" defect): the error branch of `Runtime.InvokePipeline` after
+`instantiatePipeline` — where a start that lost the race for the lock arrives with
+PipestanceLockedError — does not remove the pipestance directory unconditionally.
+(False on a tree where it does: negative witness `lts_refused_start_removes_owners_lock`.) -/
+theorem refused_start_keeps_directory :
+    Gen.c15RefusedStartRemovesDir_extracted = true ∧ Gen.c15RefusedStartRemovesDir = false := by decide
 
 open Martian.LockLTS in
 /-- Mutual exclusion for EVERY interleaving of attach attempts, unlocks, graceful
@@ -238,9 +265,9 @@ operator removes `_lock` only when no process owns the pipestance: at most one
 process owns the pipestance, and while one does the lock file exists.
 (Without the operator assumption: `lts_rmLock_under_live_owner`.) -/
 theorem lts_mutual_exclusion (tr : List Act) (s : St)
-    (h : run Gen.c15RegisterFirst disciplined init tr = some s) :
+    (h : run Gen.c15RegisterFirst Gen.c15RefusedStartRemovesDir disciplined init tr = some s) :
     s.holders.length ≤ 1 ∧ (s.holders ≠ [] → s.lockFile = true) := by
-  rw [handler_registered_after_check] at h
+  rw [handler_registered_after_check.2, refused_start_keeps_directory.2] at h
   have hi := inv_run tr init s inv_init h
   rcases hi.owner with h0 | ⟨x, hx, hl⟩
   · simp [h0]
@@ -249,17 +276,52 @@ theorem lts_mutual_exclusion (tr : List Act) (s : St)
 open Martian.LockLTS in
 /-- An attach that is refused changes nothing at all — in ANY state, reachable or not. -/
 theorem lts_refused_attach_changes_nothing (s : St) (p : Nat) (h : s.lockFile = true) :
-    step Gen.c15RegisterFirst s (.acquire p) = (s, false) := by
-  rw [handler_registered_after_check]
+    step Gen.c15RegisterFirst Gen.c15RefusedStartRemovesDir s (.acquire p) = (s, false) := by
+  rw [handler_registered_after_check.2, refused_start_keeps_directory.2]
   cases s; simp_all [step]
+
+
+open Martian.LockLTS in
+/-- A START (`Runtime.InvokePipeline` by a second mrp which saw the directory still
+empty) that is refused because another mrp holds the pipestance changes nothing
+either — since the repair of the defect by which `InvokePipeline` ran
+`os.RemoveAll(pipestancePath)` on every instantiation error (regenerated fact
+`refused_start_keeps_directory`). -/
+theorem lts_refused_start_changes_nothing (s : St) (p : Nat) (h : s.lockFile = true) :
+    step Gen.c15RegisterFirst Gen.c15RefusedStartRemovesDir s (.start p) = (s, false) := by
+  rw [handler_registered_after_check.2, refused_start_keeps_directory.2]
+  cases s; simp_all [step]
+
+open Martian.LockLTS in
+/-- Negative witness (the defect before its repair, reproduced on the real code by the
+start-race stream of the harness): a refused start that removes the directory removes
+the owner's lock, and a third mrp becomes a second owner. -/
+theorem lts_refused_start_removes_owners_lock :
+    ∃ s, run false true disciplined init [.start 1, .register 1, .start 2, .start 3] = some s
+      ∧ s.holders = [3, 1] := by
+  exact ⟨_, rfl, rfl⟩
+
+open Martian.LockLTS in
+/-- Negative witness for the second assumption of `lts_mutual_exclusion` (`disciplined`
+excludes `acquireErr`): when the create of `_lock` fails with an error other than
+"exists", `Lock()` logs it, REGISTERS the signal handler and returns nil; if that
+process later dies through the handler path it removes the lock of whoever owns the
+pipestance by then, and a further mrp attaches.  (On the real code the callers of
+`Lock()` fail on the next operation — "Pipestance is in read only mode" — and
+`Unlock()`, which unregisters the handler, so the history does not arise through
+`ReattachToPipestance`; the harness checks exactly that on every run.) -/
+theorem lts_create_error_breaks_exclusion :
+    ∃ s, run false false anything init [.acquireErr 1, .acquire 2, .register 2, .signal 1, .acquire 3] = some s
+      ∧ s.holders = [3, 2] := by
+  exact ⟨_, rfl, rfl⟩
 
 open Martian.LockLTS in
 /-- …and neither does the later death (graceful or not) of a process that does
 not own the pipestance — e.g. an attacher that was refused. -/
 theorem lts_death_of_bystander_changes_nothing (tr : List Act) (s : St) (p : Nat)
-    (h : run Gen.c15RegisterFirst disciplined init tr = some s) (hh : p ∉ s.holders) :
-    (step Gen.c15RegisterFirst s (.signal p)).1 = s ∧ (step Gen.c15RegisterFirst s (.kill p)).1 = s := by
-  rw [handler_registered_after_check] at h ⊢
+    (h : run Gen.c15RegisterFirst Gen.c15RefusedStartRemovesDir disciplined init tr = some s) (hh : p ∉ s.holders) :
+    (step Gen.c15RegisterFirst Gen.c15RefusedStartRemovesDir s (.signal p)).1 = s ∧ (step Gen.c15RegisterFirst Gen.c15RefusedStartRemovesDir s (.kill p)).1 = s := by
+  rw [handler_registered_after_check.2, refused_start_keeps_directory.2] at h ⊢
   have hi := inv_run tr init s inv_init h
   have hr : p ∉ s.registered := fun hm => hh (hi.reg p hm)
   have hrc : s.registered.contains p = false := by
@@ -270,24 +332,16 @@ theorem lts_death_of_bystander_changes_nothing (tr : List Act) (s : St) (p : Nat
   simp_all [step, drop_of_not_mem]
 
 open Martian.LockLTS in
-/-- A lock left behind by a killed owner — or by an owner signalled between its
-`acquire` and its `register` — is never taken over: every attach is refused until
-the file is removed (there is no stale-lock rule in the code). -/
-theorem lts_stale_lock_blocks (s : St) (p q : Nat) (h : s.lockFile = true) :
-    (step Gen.c15RegisterFirst (step Gen.c15RegisterFirst s (.kill p)).1 (.acquire q)).2 = false := by
-  simp [step, h]
-
-open Martian.LockLTS in
 /-- The window between the exclusive create and the handler registration is
 safe: an owner signalled there leaves the lock file in place (a stale lock). -/
 theorem lts_signal_before_register_leaves_stale_lock :
-    run false disciplined init [.acquire 1, .signal 1] = some { lockFile := true, holders := [], registered := [] } := by
+    run false false disciplined init [.acquire 1, .signal 1] = some { lockFile := true, holders := [], registered := [] } := by
   decide
 
 open Martian.LockLTS in
 /-- Negative witness: deleting `_lock` while its owner is alive lets a second owner in. -/
 theorem lts_rmLock_under_live_owner :
-    ∃ s, run false anything init [.acquire 1, .register 1, .rmLock, .acquire 2] = some s ∧ s.holders = [2, 1] := by
+    ∃ s, run false false anything init [.acquire 1, .register 1, .rmLock, .acquire 2] = some s ∧ s.holders = [2, 1] := by
   exact ⟨_, rfl, rfl⟩
 
 open Martian.LockLTSOld in
@@ -301,9 +355,63 @@ theorem lts_check_then_write_race :
   exact ⟨_, rfl, rfl⟩
 
 open Martian.LockLTS in
-example : run false disciplined init
+example : run false false disciplined init
     [.acquire 1, .acquire 2, .register 1, .acquire 2, .signal 2, .acquire 3, .kill 1, .acquire 2, .rmLock,
      .acquire 2, .acquire 3, .register 2, .unlock 2]
     = some { lockFile := false, holders := [], registered := [] } := by decide
+
+/-! ### definitional unfoldings (documentation of the model, not guarantees)
+
+The statements below restate modelling decisions: a field that the model's
+comparison functions do not mention does not influence them.  That the Go code
+does not read these components either is tied by the edit classes of the
+harness (one class per `Ignored` constructor), not by these statements. -/
+
+/-- Nothing in `Extra` (src, resources, retain, chunk parameters, help) can
+change the verdict: neither pass of the comparison reads it.  (Before the repair
+of F20 this also held for struct definitions; `struct_definition_change_refused`
+shows that it no longer does.) -/
+theorem ignored_components_do_not_matter (a a' b : FullProg) (h : a.core = a'.core)
+    (hs : a.structs = a'.structs) (sc tc : Bool) :
+    equivalentCallFull sc tc a b = equivalentCallFull sc tc a' b ∧
+    equivalentCallFull sc tc b a = equivalentCallFull sc tc b a' := by
+  simp only [equivalentCallFull, sfuel, h, hs, and_self]
+
+/-- `volatile` is ignored by `Modifiers.EquivalentTo` (both sides). -/
+theorem volatile_is_ignored (sc : Bool) (m o : Mods) (v : Bool) :
+    Mods.equiv sc { m with volatile := v } o = Mods.equiv sc m o ∧
+    Mods.equiv sc m { o with volatile := v } = Mods.equiv sc m o := by
+  simp [Mods.equiv]
+
+/-- the type NAME of a parameter of scalar file kind is ignored -/
+theorem scalar_file_type_name_is_ignored (x y : Param) (t : Key) (hx : x.fileKind = 2) :
+    inParamEq { x with tname := t } y = inParamEq x y ∧
+    inParamEq y { x with tname := t } = inParamEq y x := by
+  constructor
+  · simp [inParamEq, hx]
+  · simp only [inParamEq]
+    by_cases hy : y.fileKind = 2
+    · simp [hy]
+    · have : (y.fileKind == x.fileKind) = false := by simpa [hx] using hy
+      simp [this]
+
+/-- the output file name of a STAGE output is ignored (`checkOutNames = false`) -/
+theorem stage_out_name_is_ignored (x y : Param) (n : Key) :
+    outParamEq false { x with outName := n } y = outParamEq false x y := by
+  simp [outParamEq, inParamEq]
+
+/-- …but not that of a pipeline output of file or directory kind -/
+example : outParamEq true { tname := [116], arrayDim := 0, mapDim := 0, fileKind := 2, outName := [] }
+    { tname := [116], arrayDim := 0, mapDim := 0, fileKind := 2, outName := [1] } = false := by decide
+
+
+open Martian.LockLTS in
+/-- A lock left behind by a killed owner — or by an owner signalled between its
+`acquire` and its `register` — is never taken over: every attach is refused until
+the file is removed (there is no stale-lock rule in the code). -/
+theorem lts_stale_lock_blocks (s : St) (p q : Nat) (h : s.lockFile = true) :
+    (step Gen.c15RegisterFirst Gen.c15RefusedStartRemovesDir (step Gen.c15RegisterFirst Gen.c15RefusedStartRemovesDir s (.kill p)).1 (.acquire q)).2 = false := by
+  simp [step, h]
+
 
 end Props.C15
